@@ -52,6 +52,7 @@ struct Ledger {
     reclaimed: u64,
     refused_writers: u64,
     cache_hits: u64,
+    handed_over: u64,
 }
 
 impl Ledger {
@@ -144,6 +145,7 @@ impl Scenario for Conc {
         let bulk = cfg.biased_zero(4, 1, 2) as usize;
         let mk_list = move || if bulk == 0 { LazyFreeList::new() } else { LazyFreeList::with_bulk_threshold(bulk) };
         let shared: Arc<Mutex<LazyFreeList>> = Arc::new(Mutex::new(mk_list()));
+        let mailbox: Arc<Mutex<Vec<Tok>>> = Arc::new(Mutex::new(vec![]));
         let mut bodies: Vec<e1::Body> = vec![];
         for t in 0..nthreads {
             let planned = 2 + cfg.below(7);
@@ -157,6 +159,7 @@ impl Scenario for Conc {
             let vm = vm.clone();
             let ledger = ledger.clone();
             let shared = shared.clone();
+            let mailbox = mailbox.clone();
             bodies.push(Box::new(move |me: usize| {
                 let mut held: Vec<Tok> = vec![];
                 // (no scheduling point is ever reached while the list lock is held: the list is plain data)
@@ -168,8 +171,9 @@ impl Scenario for Conc {
                     f(&mut l);
                 };
                 for o in &list {
-                    let nkinds = if mode == Mode::Vm { 5 } else { 8 };
-                    let k = o[0] % nkinds;
+                    const VM_OPS: [u64; 7] = [0, 1, 2, 3, 4, 8, 9];
+                    const TM_OPS: [u64; 12] = [0, 1, 2, 3, 4, 5, 6, 7, 8, 9, 10, 11];
+                    let k = if mode == Mode::Vm { VM_OPS[(o[0] % 7) as usize] } else { TM_OPS[(o[0] % 12) as usize] };
                     match k {
                         // acquire reader / writer straight from the version manager
                         0 | 1 => {
@@ -280,6 +284,78 @@ impl Scenario for Conc {
                                 held.push(t);
                             }
                         }
+                        // hand a held token to whichever thread takes it (tokens are Send)
+                        8 => {
+                            if !held.is_empty() {
+                                let t = held.remove((o[1] as usize) % held.len());
+                                let (kind, v) = (t.kind(), t.version());
+                                lg(&mut |l| {
+                                    if let Some(p) = l.toks.iter().position(|x| x.mgr == 0 && x.kind == kind && x.version == v && x.thread == me && !x.cached) {
+                                        l.toks[p].thread = usize::MAX;
+                                    }
+                                    l.events.push(format!("t{} hands over {} v{}", me, KIND[kind], v));
+                                });
+                                mailbox.lock().unwrap().push(t);
+                            }
+                        }
+                        9 => {
+                            let got = mailbox.lock().unwrap().pop();
+                            if let Some(t) = got {
+                                let (kind, v) = (t.kind(), t.version());
+                                lg(&mut |l| {
+                                    if let Some(p) = l.toks.iter().position(|x| x.mgr == 0 && x.kind == kind && x.version == v && x.thread == usize::MAX) {
+                                        l.toks[p].thread = me;
+                                    }
+                                    l.handed_over += 1;
+                                    l.events.push(format!("t{} takes over {} v{}", me, KIND[kind], v));
+                                });
+                                held.push(t);
+                            }
+                        }
+                        // with_reader_token / with_writer_token: acquire (cache first), run the closure,
+                        // return the token to the cache - or drop it when the closure fails
+                        10 | 11 => {
+                            let kind = (k - 10) as usize;
+                            let fail = o[2] % 3 == 0;
+                            lg(&mut |l| l.inflight[me][kind] = 1);
+                            let ledger3 = ledger.clone();
+                            let vm3 = vm.clone();
+                            let mut body = |v: u64| -> zipora::error::Result<u64> {
+                                {
+                                    let mut l = ledger3.lock().unwrap();
+                                    l.inflight[me][kind] = 0;
+                                    if let Some(p) = l.toks.iter().position(|x| x.cached && x.thread == me && x.kind == kind && x.version == v) {
+                                        l.toks[p].cached = false;
+                                        l.cache_hits += 1;
+                                    } else {
+                                        l.toks.push(LTok { kind, version: v, thread: me, cached: false, mgr: 0 });
+                                    }
+                                    l.events.push(format!("t{} with_{}_token: closure runs with v{}{}", me, KIND[kind], v, if fail { ", fails" } else { "" }));
+                                }
+                                // a scheduling point while the token is in use
+                                let _ = vm3.current_version();
+                                let mut l = ledger3.lock().unwrap();
+                                l.inflight[me][kind] = 1;
+                                if let Some(p) = l.toks.iter().position(|x| !x.cached && x.thread == me && x.kind == kind && x.version == v) {
+                                    if fail {
+                                        l.toks.remove(p);
+                                    } else {
+                                        l.toks[p].cached = true;
+                                    }
+                                }
+                                if fail { Err(zipora::error::ZiporaError::invalid_data("closure failed")) } else { Ok(v) }
+                            };
+                            let r = if kind == 0 { zipora::fsa::token::with_reader_token(&tm, |t| body(t.version())) } else { zipora::fsa::token::with_writer_token(&tm, |t| body(t.version())) };
+                            lg(&mut |l| {
+                                l.inflight[me][kind] = 0;
+                                if r.is_err() && !fail {
+                                    if kind == 1 {
+                                        l.refused_writers += 1;
+                                    }
+                                    l.events.push(format!("t{} with_{}_token -> refused", me, KIND[kind]));
+                                }
+                            });
+                        }
                         // TokenManager: return a held token to the cache (replaces, i.e. releases, a cached one)
                         _ => {
                             if !held.is_empty() && o[2] % 4 != 0 {
@@ -367,10 +443,21 @@ impl Scenario for Conc {
             cx.violate(&v.class, &v.site, v.detail);
             return;
         }
+        cx.probe_n("tokens_handed_to_another_thread", l.handed_over);
+        drop(l);
         if !res.abandoned {
+            // tokens nobody took over are released here, by the driver thread
+            mailbox.lock().unwrap().clear();
             let (ar, aw) = (vm.active_readers(), vm.active_writers());
             if ar != 0 || aw != 0 {
                 cx.violate("counters_nonzero_at_quiescence", "inv.quiescence", format!("all tokens released but active_readers()={} active_writers()={}", ar, aw));
+                return;
+            }
+            // the statistics view of the same numbers (acquired - released)
+            if let Ok(st) = vm.stats() {
+                if st.active_readers() != 0 || st.active_writers() != 0 {
+                    cx.violate("counters_nonzero_at_quiescence", "inv.quiescence.stats", format!("all tokens released but stats().active_readers()={} stats().active_writers()={}", st.active_readers(), st.active_writers()));
+                }
             }
         }
     }
@@ -679,11 +766,30 @@ impl Scenario for Reclaim {
                     }
                 }
             }
+            // sequential: the reported numbers equal the live tokens exactly, in both views
+            if viol.is_none() {
+                let cr = held.iter().filter(|t| t.kind() == 0).count() as u64;
+                let cw = held.iter().filter(|t| t.kind() == 1).count() as u64;
+                let (ar, aw) = (vm.active_readers(), vm.active_writers());
+                if ar != cr || aw != cw {
+                    viol = Some(Violation::new("counter_mismatch", "inv.active_counters.seq", format!("active_readers()={} active_writers()={} but {} reader and {} writer tokens are live", ar, aw, cr, cw)));
+                } else if let Ok(st) = vm.stats() {
+                    if st.active_readers() != cr as i64 || st.active_writers() != cw as i64 {
+                        viol = Some(Violation::new("counter_mismatch", "inv.stats_counters.seq", format!("stats(): active_readers()={} active_writers()={} but {} reader and {} writer tokens are live", st.active_readers(), st.active_writers(), cr, cw)));
+                    }
+                }
+                if level == ConcurrencyLevel::OneWriteMultiRead && cw > 1 {
+                    viol = Some(Violation::new("two_writers_live", "inv.one_writer", format!("{} writer tokens live at once", cw)));
+                }
+            }
             if viol.is_some() {
                 break;
             }
         }
         drop(held);
+        if viol.is_none() && (vm.active_readers() != 0 || vm.active_writers() != 0) {
+            viol = Some(Violation::new("counters_nonzero_at_quiescence", "inv.quiescence", format!("all tokens released but active_readers()={} active_writers()={}", vm.active_readers(), vm.active_writers())));
+        }
         cx.steps = n;
         cx.probe_n("items_freed", freed);
         cx.probe_n("queued_out_of_age_order", out_of_order);
